@@ -284,14 +284,18 @@ var c11Extremes = []func(tag string) string{
 	func(t string) string { return t + " FETCH 1 BODY[]<4294967295.4294967295>" },
 	func(t string) string { return t + " FETCH 1 BODY[]<18446744073709551615.1>" },
 	func(t string) string { return t + " FETCH 1 BODY[]<2147483648.2147483648>" },
-	func(t string) string { return t + " FETCH 1:* (BODY[HEADER.FIELDS (" + strings.Repeat("X ", 20000) + ")])" },
+	func(t string) string {
+		return t + " FETCH 1:* (BODY[HEADER.FIELDS (" + strings.Repeat("X ", 20000) + ")])"
+	},
 	func(t string) string { return t + " FETCH 4294967296 FLAGS" },
 	func(t string) string { return t + " FETCH 1:18446744073709551616 FLAGS" },
 	func(t string) string { return t + " UID FETCH 1:4294967295 FLAGS" },
 	func(t string) string { return t + " UID FETCH 4294967295:* (FLAGS)" },
 	func(t string) string { return t + " FETCH " + strings.Repeat("1,", 50000) + "1 FLAGS" },
 	func(t string) string { return t + " SEARCH " + strings.Repeat("NOT ", 10000) + "ALL" },
-	func(t string) string { return t + " SEARCH " + strings.Repeat("(", 10000) + "ALL" + strings.Repeat(")", 10000) },
+	func(t string) string {
+		return t + " SEARCH " + strings.Repeat("(", 10000) + "ALL" + strings.Repeat(")", 10000)
+	},
 	func(t string) string { return t + " SEARCH " + strings.Repeat("OR ALL ", 5000) + "ALL" },
 	func(t string) string { return t + " SEARCH " + strings.Repeat("(", 10000) },
 	func(t string) string { return t + " SEARCH LARGER 4294967296" },
@@ -329,7 +333,9 @@ var c11Extremes = []func(tag string) string{
 	func(t string) string { return t + " \x00\x00\x00" },
 	func(t string) string { return t + " NOOP\x00" },
 	func(t string) string { return "\xff\xfe " + t + " NOOP" },
-	func(t string) string { return t + " FETCH 1 (BODY.PEEK[HEADER.FIELDS.NOT (" + strings.Repeat("(", 2000) + ")])" },
+	func(t string) string {
+		return t + " FETCH 1 (BODY.PEEK[HEADER.FIELDS.NOT (" + strings.Repeat("(", 2000) + ")])"
+	},
 	func(t string) string { return t + " FETCH 1 " + strings.Repeat("(", 10000) + "FLAGS" },
 	func(t string) string { return t + " UID " + strings.Repeat("UID ", 10000) + "FETCH 1 FLAGS" },
 }
